@@ -55,6 +55,10 @@ def gen_flag(rng, nvars, vinfo, nparams):
         return ["nonec"]  # the Python constant None as flag
     if r < 0.3:
         return ["bool", rng.random() < 0.5]
+    if r < 0.38:
+        # a string as activation value: Python's truth value (non-empty = truthy), whatever it spells
+        from .terms import STRS
+        return ["strc", random.Random(rng.getrandbits(30)).choice(STRS)]
     return gen_expr(rng, nvars, vinfo, nparams, allow_const=False) if (nvars or nparams) else ["bool", rng.random() < 0.5]
 
 
@@ -107,7 +111,7 @@ def gen_prog(rng, name="p", depth=0, max_stmts=8, fid_base=0, p_flag=0.2, p_sub=
             elif sc < 0.6:
                 sub["qualname"] = "scope%d.<locals>.prep" % len(subs)
                 sub["pyname"] = "prep"
-            if sub["ret"]["shape"] == "none" or any(it[0] in ("const", "bool") for it in ret_items(sub["ret"])) or not sub["stmts"]:
+            if sub["ret"]["shape"] == "none" or any(it[0] in ("const", "bool", "strc") for it in ret_items(sub["ret"])) or not sub["stmts"]:
                 sub["ret"] = dict(shape="single", items=[first_var(sub)])
             subs.append(sub)
             nsp = len(sub["params"])
@@ -287,6 +291,8 @@ def body(prog, F, S, L, recorder=None, override=None):
             return Const(e[1], e[2])
         if e[0] == "nonec":
             return None
+        if e[0] == "strc":
+            return e[1]
         return bool(e[1])
 
     def run(*params):
